@@ -115,7 +115,7 @@ def main(argv):
             results = pool.map(_task, tasks, chunksize=1)
 
     per_check = {}
-    founddir = os.path.join(fw.VERIF_DIR, 'replays', 'found')
+    founddir = os.environ.get('VERIF_FOUND_DIR') or os.path.join(fw.VERIF_DIR, 'replays', 'found')
     os.makedirs(founddir, exist_ok=True)
     for r in results:
         pc = per_check.setdefault(r['check'], {'evals': 0, 'nt': set(), 'classes': {}, 'samples': [], 'known': {}, 'inconclusive': 0, 'wall': 0.0, 'notes': []})
@@ -194,8 +194,9 @@ def main(argv):
         'wall_s': round(wall, 2),
         'violations': len(violations),
     }
-    os.makedirs(os.path.join(fw.VERIF_DIR, 'evidence'), exist_ok=True)
-    with open(os.path.join(fw.VERIF_DIR, 'evidence', f'{prop}.json'), 'w') as f:
+    evdir = os.environ.get('VERIF_EVIDENCE_DIR') or os.path.join(fw.VERIF_DIR, 'evidence')
+    os.makedirs(evdir, exist_ok=True)
+    with open(os.path.join(evdir, f'{prop}.json'), 'w') as f:
         json.dump(evidence, f, indent=1, default=str)
 
     for e in findings.open_for(prop):
@@ -218,4 +219,13 @@ def main(argv):
 
 
 if __name__ == '__main__':
-    sys.exit(main(sys.argv))
+    try:
+        rc = main(sys.argv)
+    except SystemExit:
+        raise
+    except BaseException as e:  # noqa: BLE001 -- a crash of the machinery is exit 2, never a verdict
+        import traceback
+        traceback.print_exc()
+        print(f'HARNESS-ERROR: {type(e).__name__}: {e}', file=sys.stderr)
+        rc = 2
+    sys.exit(rc)
